@@ -70,9 +70,16 @@ TEnd == /\ Is("mend") /\ phase = "run" /\ pos = Len(Bytes)
         /\ StMatches
         /\ phase' = "idle" /\ Consume /\ UNCHANGED base
 
+\* to_acgt(x) of the Python iterator object (between runs): the m letters of the code
+LetterByte == <<65, 67, 71, 84>>
+TAcgt == /\ Is("macgt") /\ phase = "idle"
+         /\ HighZero(Ev.x, Ev.m)
+         /\ Ev.txt = [i \in 1..Ev.m |-> LetterByte[LowDigits(Ev.x, Ev.m)[i] + 1]]
+         /\ Consume /\ UNCHANGED <<vars, phase, base>>
+
 TEof == /\ Is("eof") /\ phase = "idle" /\ Consume /\ UNCHANGED <<vars, phase, base>>
 
-TNext == TMInit \/ TSilent \/ TRun \/ TFlush \/ TEnd \/ TEof
+TNext == TMInit \/ TSilent \/ TRun \/ TFlush \/ TEnd \/ TAcgt \/ TEof
 TSpec == TInit /\ [][TNext]_tvars
 
 \* declarative characterisation once per run, at its end
